@@ -512,3 +512,81 @@ Fixpoint c10_bad (before : st) (l : list ostep) : bool :=
   end.
 
 Definition monitor_fail (c : case) : bool := match c with mkCase l => c10_bad empty l end.
+
+(* ------------------------------------------------------------------------------------------------ monitors for C11, C12, C13
+   (same case type; each is the property's conclusion evaluated on the implementation's observed states) *)
+
+Fixpoint nodupb (l : list N) : bool :=
+  match l with [] => true | x :: r => negb (mem x r) && nodupb r end.
+Definition sort_set (l : list N) : list N := fold_right ins [] l.
+
+(* C11: after every settled change (completed, or failed and undone): current is kept, no revision is kept twice, the
+   revisions present on the system are exactly the kept ones, the current link is the recorded current revision exactly
+   when the snap is active; a snap that is gone leaves no link, no configuration and no per-revision configuration *)
+Definition c11_ok (a : st) : bool :=
+  nodupb (seq a)
+  && (match seq a with [] => true | _ => mem (cur a) (seq a) end)
+  && list_eqb (sort_set (seq a)) (mounted a)
+  && (link a =? (if active a then cur a else 0))
+  && (match seq a with [] => (cfg a =? 0) && rc_eqb (revcfg a) [] && (link a =? 0) && negb (active a) | _ => true end).
+
+Definition monitor11_fail (c : case) : bool :=
+  match c with mkCase l => existsb (fun x => negb (c11_ok (s_after x))) l end.
+
+(* C13: a completed revert keeps the order of the kept revisions, makes the target current, copies no data and mounts
+   nothing, and Block() afterwards is: the revisions after the new current one, minus the ones marked not-blocked (the
+   reverted-from revision joins them exactly when the revert was asked not to block it); a refused revert is exactly:
+   target not kept, or already current, or snap inactive, and changes nothing *)
+Definition c13_step_bad (before : st) (x : ostep) : bool :=
+  let o := s_op x in let a := s_after x in
+  match okind o with
+  | ORevert =>
+      if s_refused x then
+        negb (st_eqb before a)
+        || (negb (odefault o)
+            && negb (negb (mem (orev o) (seq before)) || (orev o =? cur before) || negb (active before)))
+      else if Nat.eqb (s_k x) 0 then
+        negb (list_eqb (seq a) (seq before)) || negb (cur a =? orev o) || negb (active a)
+        || negb (s_copies x =? 0)
+        || existsb (fun t => kind_eqb (fst t) KCopyData || kind_eqb (fst t) KMount || kind_eqb (fst t) KDiscard) (s_chain x)
+        || negb (mem (orev o) (seq before)) || (orev o =? cur before) || negb (active before)
+        || (let nb' := if onotblocked o then cur before :: nb before else rem (cur before) (nb before) in
+            let later := match last_index (orev o) (seq before) with Some i => skipn (S i) (seq before) | None => [] end in
+            negb (list_eqb (s_block x) (filter (fun r => negb (mem r nb')) later)))
+      else false
+  | _ => false
+  end.
+
+Fixpoint c13_bad (before : st) (l : list ostep) : bool :=
+  match l with [] => false | x :: r => c13_step_bad before x || c13_bad (s_after x) r end.
+Definition monitor13_fail (c : case) : bool := match c with mkCase l => c13_bad empty l end.
+
+(* C12: a completed refresh leaves at most max(retain, kept before) revisions; at most retain when the target was not
+   kept before; none of the revisions that came after the old current one (except the target); the target is kept and
+   current.  (No revision is in use for booting in the driver's runs: the snap is an app.) *)
+Definition c12_step_bad (before : st) (x : ostep) : bool :=
+  let o := s_op x in let a := s_after x in
+  match okind o with
+  | ORefresh =>
+      if s_refused x || negb (Nat.eqb (s_k x) 0) then false else
+      let n := Z.of_nat (length (seq before)) in let n' := Z.of_nat (length (seq a)) in
+      (Z.max (s_retain x) n <? n')%Z
+      || (negb (mem (orev o) (seq before)) && (s_retain x <? n')%Z)
+      || negb (mem (orev o) (seq a)) || negb (cur a =? orev o)
+      || match last_index (cur before) (seq before) with
+         | Some i => existsb (fun r => negb (r =? orev o) && mem r (seq a)) (skipn (S i) (seq before))
+         | None => true
+         end
+  | _ => false
+  end.
+
+Fixpoint c12_bad (before : st) (l : list ostep) : bool :=
+  match l with [] => false | x :: r => c12_step_bad before x || c12_bad (s_after x) r end.
+(* ... and refreshRetain answers the setting: a number, a legacy string, or the default 2 (classic) / 3 (core) *)
+Definition c12_retain_bad (x : ostep) : bool :=
+  negb (match s_rset x with
+        | RUnset => if s_classic x then (s_retain x =? 2)%Z else (s_retain x =? 3)%Z
+        | RNum n | RStr n => if (n =? 0)%Z then true else (s_retain x =? n)%Z
+        end).
+Definition monitor12_fail (c : case) : bool :=
+  match c with mkCase l => c12_bad empty l || existsb c12_retain_bad l end.
